@@ -85,8 +85,7 @@ impl Metablock {
 }
 
 //@extract src/verifylib.rs fn:get_summary_link props=C15,C14
-//@subst D16 /reduced_link_files\[layout\.steps\[0\]\.name\(\)\]/ => reduced_link_files.get(layout.steps[0].name()).expect("no entry found for key")
-//@subst D16 /reduced_link_files\[layout\.steps\[layout\.steps\.len\(\) - 1\]\.name\(\)\]/ => reduced_link_files.get(layout.steps[layout.steps.len() - 1].name()).expect("no entry found for key") count=3
+//@mapindex reduced_link_files
 //@contract ret=r
 //@include contracts/get_summary_link.rs
 //@before /let builder = LinkMetadataBuilder::new\(\)/
